@@ -128,6 +128,9 @@ func (e *Enc) specIdent(name string, env *SpecEnv) Val {
 	if v, ok := env.vars[name]; ok {
 		return v
 	}
+	if v, ok := e.entryLets[name]; ok {
+		return v
+	}
 	if env.fc != nil {
 		if txt, ok := env.fc.Vars[name]; ok {
 			if env.lets[name] {
@@ -503,7 +506,9 @@ func (e *Enc) specCall(n *ast.CallExpr, env *SpecEnv) Val {
 		lo, hi := arg(1), arg(2)
 		e.ctr["q"]++
 		bv := fmt.Sprintf("%s!q%d", id, e.ctr["q"])
+		e.inQuant++
 		body := e.evalBool(n.Args[3], env.with(id, intVal(bv)))
+		e.inQuant--
 		rng := fmt.Sprintf("(and (<= %s %s) (< %s %s))", lo.T, bv, bv, hi.T)
 		if fname == "forall" {
 			return boolVal(fmt.Sprintf("(forall ((%s Int)) (=> %s %s))", bv, rng, body))
@@ -513,7 +518,9 @@ func (e *Enc) specCall(n *ast.CallExpr, env *SpecEnv) Val {
 		id := n.Args[0].(*ast.Ident).Name
 		e.ctr["q"]++
 		bv := fmt.Sprintf("%s!q%d", id, e.ctr["q"])
+		e.inQuant++
 		body := e.evalBool(n.Args[1], env.with(id, intVal(bv)))
+		e.inQuant--
 		return boolVal(fmt.Sprintf("(forall ((%s Int)) %s)", bv, body))
 	case "i2f":
 		return Val{Sh: floatShape, T: fmt.Sprintf("(i2f %s)", arg(0).T)}
@@ -562,6 +569,50 @@ func (e *Enc) specCall(n *ast.CallExpr, env *SpecEnv) Val {
 	case "ghost":
 		name := n.Args[0].(*ast.Ident).Name
 		return e.ghost(env.st, name)
+	case "call":
+		// call("(*T).method", args...): symbolic execution of a loop-free function of the package
+		lit := n.Args[0].(*ast.BasicLit)
+		name, _ := strconv.Unquote(lit.Value)
+		fn := e.w.lookupFunc(name)
+		if fn == nil {
+			specFail("call: no function %s", name)
+		}
+		var args []Val
+		for i := 1; i < len(n.Args); i++ {
+			args = append(args, e.coerce(arg(i), shapeOf(fn.Params[i-1].Type())))
+		}
+		e.noObl++
+		defer func() { e.noObl-- }()
+		return e.inlinePure(fn, args, env.st)
+	case "mkobj":
+		// mkobj(T, field, value, ...): a ghost object of struct type T (not reachable from program state)
+		t := e.w.resolveType(n.Args[0])
+		e.ghostObjs++
+		ref := fmt.Sprintf("(- %d)", e.ghostObjs)
+		e.initObject(env.st, ref, t)
+		sh := shapeOf(t)
+		for i := 1; i+1 < len(n.Args); i += 2 {
+			fname := n.Args[i].(*ast.Ident).Name
+			idx := -1
+			for k, fn := range sh.Names {
+				if fn == fname {
+					idx = k
+				}
+			}
+			if idx < 0 {
+				specFail("mkobj: no field %s", fname)
+			}
+			v := e.coerce(arg(i+1), sh.Sub[idx])
+			e.storeVal(env.st, &Loc{Base: ref, Path: pathForType(t) + "." + fname, Sh: sh.Sub[idx]}, v)
+		}
+		return Val{Sh: shapeOf(types.NewPointer(t)), T: ref}
+	case "box":
+		// box(x): x as an interface{} value
+		v := arg(0)
+		if v.Sh.K == KIface {
+			return v
+		}
+		return Val{Sh: shapeOf(types.NewInterfaceType(nil, nil)), Sub: []Val{intVal(fmt.Sprintf("%d", e.w.typeTag(v.Sh.T))), intVal(e.box(v))}}
 	case "rscur", "rslen":
 		e.rsDecls()
 		o := e.objRef(arg(0))
@@ -637,6 +688,10 @@ func (e *Enc) coerce(v Val, want *Shape) Val {
 	}
 	if isNilVal(v) {
 		return zeroVal(want)
+	}
+	if v.Sh.K == KInt && want.K == KIface && !isNilVal(v) {
+		// a pointer passed where an interface is expected
+		return Val{Sh: want, Sub: []Val{intVal(fmt.Sprintf("%d", e.w.typeTag(v.Sh.T))), intVal(v.T)}}
 	}
 	if v.Sh.K == want.K {
 		ts := flatten(v)
